@@ -77,7 +77,7 @@ def _dec(lst):
 
 def explore(run, tier):
     depth = 3 if tier == "thorough" else 2
-    seen = set()
+    seen = {}
     states = [0]
     transitions = [0]
     deltas = set()
@@ -96,11 +96,13 @@ def explore(run, tier):
         key = res.get("state")
         if key is None or not res.get("ok"):
             return      # do not expand from a violating state
-        if key in seen:
-            return
-        seen.add(key)
-        states[0] += 1
-        if len(point["hist"]) >= depth:
+        dep = len(point["hist"])
+        if key in seen and seen[key] <= dep:
+            return          # already expanded from the same or a shorter history
+        if key not in seen:
+            states[0] += 1
+        seen[key] = dep
+        if dep >= depth:
             return
         # deeper levels use the reduced alphabet unless thorough
         full = point["full"] and (len(point["hist"]) == 0 or tier == "thorough")
